@@ -413,13 +413,14 @@ def conv_expr(src, dst, a):
     if ks != "f" and kd != "f":
         v = "(s%d)%s" % (ws, a) if ks == "s" else a
         return "((u%d)%s)" % (wd, v)
+    uf = "__CPROVER_uninterpreted_specuf_conv_%s_%s" % (src, dst)      # SPECCONV: the cast itself, or (lemmas of C13) an uninterpreted symbol
     if ks != "f" and kd == "f":
         v = "(s%d)%s" % (ws, a) if ks == "s" else a
-        return "F2U%d((f%d)%s)" % (wd, wd, v)
+        return "SPECCONV(%s, F2U%d((f%d)%s), %s)" % (uf, wd, wd, v, a)
     if ks == "f" and kd != "f":
         x = "U2F%d(%s)" % (ws, a)
-        return "((u%d)(s%d)%s)" % (wd, wd, x) if kd == "s" else "((u%d)%s)" % (wd, x)
-    return "F2U%d((f%d)U2F%d(%s))" % (wd, wd, ws, a)
+        return "SPECCONV(%s, %s, %s)" % (uf, "((u%d)(s%d)%s)" % (wd, wd, x) if kd == "s" else "((u%d)%s)" % (wd, x), a)
+    return "SPECCONV(%s, F2U%d((f%d)U2F%d(%s)), %s)" % (uf, wd, wd, ws, a, a)
 
 
 def conv_pre(src, dst, a):
@@ -457,10 +458,14 @@ def _cast(kind):
             if kind == "bitwise_cast":
                 ens.append("(%s == %s)" % (R.lane(i), x))
             else:
+                # per lane, "whenever the source value is representable in the destination type": no precondition on the whole register,
+                # a caller may convert unrepresentable lanes and discard them (generic trunc does)
                 pre = conv_pre(src, dst, x)
                 if pre:
-                    ctx.requires.append(pre)
-                ens.append("(%s == %s)" % (R.lane(i), conv_expr(src, dst, x)))
+                    ctx.lane_pre = getattr(ctx, "lane_pre", []) + [pre]
+                    ens.append("(!(%s) || %s == %s)" % (pre, R.lane(i), conv_expr(src, dst, x)))
+                else:
+                    ens.append("(%s == %s)" % (R.lane(i), conv_expr(src, dst, x)))
         ctx.ensures += conj(ens)
         ctx.uses_float = True
     return build
@@ -483,8 +488,8 @@ def _nbi(ctx):
     ens = []
     for i in range(ctx.n):
         r = ctx.spec("nearbyint", a.lane(i))
-        ctx.requires.append(conv_pre(ctx.tid, dst, r))
-        ens.append("(%s == %s)" % (R.lane(i), conv_expr(ctx.tid, dst, r)))
+        ctx.lane_pre = getattr(ctx, "lane_pre", []) + [conv_pre(ctx.tid, dst, r)]
+        ens.append("(!(%s) || %s == %s)" % (conv_pre(ctx.tid, dst, r), R.lane(i), conv_expr(ctx.tid, dst, r)))
     ctx.ensures += conj(ens)
 
 
